@@ -18,7 +18,7 @@ git apply -R $out/patch.diff
 without=$(go test -vet=off -count=1 -run '^TestSeedDemo$' $pkg 2>&1 | tail -1)
 git apply $out/patch.diff
 files=$(git diff --name-only | xargs -n1 dirname | sort -u | sed 's|^|./|;s|$|/...|' | tr '\n' ' ')
-suite=$(go test -vet=off -count=1 -skip '^TestSeedDemo$' $files ./pipeline/... ./storage/... ./service/... ./orchestrator/... ./manifest/... ./block/... 2>&1 | grep -v "no test files" | grep -v "^ok" | head -5)
+suite=$(go test -vet=off -count=1 -skip '^TestSeedDemo$' $files ./pipeline/... ./storage/... ./service/... ./orchestrator/... ./manifest/... ./block/... ./sqe/... ./pb/... 2>&1 | grep -v "no test files" | grep -v "^ok" | head -5)
 [ -z "$suite" ] && suite="all ok"
 # run the checks on /repo with the change applied (never on a dirty tree: the revert would lose edits)
 if [ -n "$(git -C /repo status --short)" ]; then echo "/repo has uncommitted changes: commit them first"; exit 1; fi
@@ -36,7 +36,7 @@ python3 - "$prop" "$name" "$needs" "$build" "$with" "$without" "$suite" "$out" <
 import json,sys
 prop,name,needs,build,withc,without,suite,out=sys.argv[1:9]
 co=open(out+'/check_output.txt').read()
-detected=[l.split()[2] for l in co.split('\n') if l.startswith('FAILED obligation')]
+detected=[l.split()[2] for l in co.split('\n') if l.startswith('FAILED obligation')]+[l.split()[1] for l in co.split('\n') if l.startswith('UNDECIDED-OBLIGATION')]
 meta={"property":prop,"name":name,"breaks":prop,"needs_to_manifest":needs,
  "confirmed":{"go build ./...":build,"demo with change (must fail)":withc,"demo without change (must pass)":without,"existing tests with change":suite},
  "checks_run":[l[3:] for l in co.split('\n') if l.startswith('== ')],
